@@ -839,7 +839,7 @@ var sentinelSink uint64
 
 // execCold executes one run in a fresh child process (concurrent phase first).
 func execCold(spec *C11Run, dir, racelog string, worker int) runResult {
-	tmp := fmt.Sprintf("%s/cold-w%d.json", dir, worker)
+	tmp := fmt.Sprintf("%s/cold-w%d-p%d.json", dir, worker, os.Getpid())
 	tmpRes := tmp + ".res"
 	writeJSON(tmp, c11Replay{Format: "verif-c11-replay/1", Property: "C11", Run: spec})
 	args := []string{"c11-replay", "--quiet", "--out", tmpRes, "--racelog", racelog}
